@@ -146,7 +146,11 @@ int main(int argc, char **argv) {
     uint64_t s = (uint64_t)seed * 1000003ULL + (uint64_t)k;
     vg::Rng r(s);
     vg::GenOpts g = go;
-    if (argi("varyScale", 0)) g.scaleShift = (int)r.pick(std::vector<int>{0, 0, 3, 10, 16});
+    if (argi("varyScale", 0) == 1) g.scaleShift = (int)r.pick(std::vector<int>{0, 0, 3, 10, 16});
+    else if (argi("varyScale", 0) > 1) {
+      int vs = (int)argi("varyScale", 0);
+      g.scaleShift = (int)r.pick(std::vector<int>{0, 0, 3, vs / 2, vs});
+    }
     Circuit base = vg::genCircuit(r, g);
     uint64_t pseed = r.u() >> 1;
     vg::Rng pr(pseed);
